@@ -375,13 +375,13 @@ func runC09(ctx *core.Ctx) {
 	subC09Lattice.Run(ctx, nU*len(ys), func(i int) feCase {
 		return feCase{Op: "Mult32", A: elemIn{latticeAt(kU, i/len(ys))}, Y: ys[i%len(ys)]}
 	})
-	kI := tierN(ctx, 3, 5) // Invert / Pow22523 are ~250 multiplications each
+	kI := sz(ctx, 3, 5, 7) // Invert / Pow22523 are ~250 multiplications each
 	nI := latticeSize(kI)
 	subC09Lattice.Run(ctx, nI*2, func(i int) feCase {
 		return feCase{Op: []string{"Invert", "Pow22523"}[i%2], A: elemIn{latticeAt(kI, i/2)}}
 	})
 	// lattice, binary
-	kB := tierN(ctx, 3, 4)
+	kB := sz(ctx, 3, 4, 5)
 	nB := latticeSize(kB)
 	binops := []string{"Add", "Subtract", "Multiply"}
 	subC09Lattice.Run(ctx, nB*nB*len(binops), func(i int) feCase {
